@@ -1,10 +1,12 @@
 #!/bin/bash
+# (every result line, with the number of violating runs, is appended to $REGRESS_LOG, default /tmp/regress.full)
 # re-runs every stored seeded change against the check of its property; prints the ones NOT caught
 cd /verif
 fail=0
 for d in seeded/*/; do
   id=$(basename $d); prop=${id%%-*}
   out=$(timeout 900 tools/evalmut.sh /verif/${d}patch.diff $prop)
+  echo "$id: $out" >> ${REGRESS_LOG:-/tmp/regress.full}
   if grep -q expected_not_caught $d/meta.json; then continue; fi; if ! echo "$out" | grep -q "^$prop exit=1"; then echo "NOT CAUGHT: $id: $out"; fail=1; fi
 done
 echo "regression done fail=$fail"
